@@ -25,6 +25,7 @@ func init() {
 
 func runC12(c *report.Ctx) {
 	p := c.P
+	ruleGapLimitOneValue(c)
 	ruleGapOracleIsTheChain(c)
 	ruleRollbackBeforeCursorMoves(c) // the used flag follows a reorg only if the rollback really unwinds
 	ruleChainFetcherHasNoMemory(c)
